@@ -2030,6 +2030,11 @@ def gen_plan_threads(seed: int, wide=False) -> dict:
                 ops.insert(rs.randrange(len(ops) + 1), {'op': 'convert', 'root': rn, 'custom': custom, 'data': data})
         knobs['trace_scope'] = rs.choice(['all', 'all', 'classes'])
         knobs['switch_p'] = rs.choice([0.15, 0.3, 0.5])
+        if rs.random() < 0.5:
+            # windows that lie inside one source line (check-then-act on shared state): switch between bytecodes
+            knobs['opcode_trace'] = True
+            knobs['opcode_scope'] = 'all'
+            knobs['switch_p'] = rs.choice([0.05, 0.15, 0.3])
     return plan
 
 
